@@ -42,7 +42,9 @@ CONSTANTS Dev,      \* (PDev of Policies.tla stays {} here)
 VARIABLES sc,       \* scenario [wk, lim, prm (policy parameters, see Policies.tla), W (flow weights),
                     \*           arr : Seq([t,h,s,p,f]), sh : [t,l] (one shift change, ShiftedServer),
                     \*           dyn : Seq([t,l]) (set_limit calls on a Server's DynamicConcurrency),
-                    \*           rt (1: the forwarders re-emit the same event object)]
+                    \*           rt (1: the forwarders re-emit the same event object),
+                    \*           endt (0: no end_time, the run stops when only daemon events are left;
+                    \*                 > 0: end_time, every event up to that instant is delivered)]
           m         \* machine state, a record:
                     \*   heap     set of events [t, idx, k, i, h, d]
                     \*   ctr      next sort index            clock
@@ -66,6 +68,9 @@ Ev(t, idx, k, i, h, d) == [t |-> t, idx |-> idx, k |-> k, i |-> i, h |-> h, d |-
 Less(a, b) == a.t < b.t \/ (a.t = b.t /\ a.idx < b.idx)
 MinOf(hp) == CHOOSE e \in hp : \A o \in hp : o = e \/ Less(e, o)
 RunnableH(hp) == { e \in hp : ~e.d } # {}     \* auto-termination: only daemon events left => stop
+\* the engine keeps popping: without end_time while a primary event is left, with end_time while an
+\* event not later than it is left (the one later event the loop still delivers is not observed)
+AliveH(s, hp) == IF s.endt = 0 THEN RunnableH(hp) ELSE hp # {} /\ MinOf(hp).t <= s.endt
 InSOf(mm) == { i \in DOMAIN mm.status : mm.status[i] = "inservice" }
 
 ArrRec == [t : Ticks, h : Hops, s : Svcs, p : Prios, f : Flows]
@@ -74,7 +79,7 @@ PrmOf(k, c) == [kind |-> k, cap |-> c, pfc |-> Inf, mxf |-> Inf, thr |-> Inf, bm
 ScenarioSet ==
     { s \in [wk : Kinds, lim : Limits, prm : { PrmOf(k, c) : k \in Pols, c \in Caps }, W : {[f \in 1..NFl |-> 1]},
              arr : UNION { [1..n -> ArrRec] : n \in NItems }, sh : [t : ShiftTs, l : ShiftLs],
-             dyn : {<<>>}, rt : {0}] :
+             dyn : {<<>>}, rt : {0}, endt : {0}] :
         /\ s.wk = "server" => s.sh = [t |-> 0, l |-> 0] /\ s.lim >= 1
         /\ s.wk = "shifted" => (\A j \in 1..Len(s.arr) : s.arr[j].s = s.arr[1].s) /\ (s.sh.t = 0 => s.sh.l = 0)
         /\ s.prm.kind \notin {"prio", "deadline"} => \A j \in 1..Len(s.arr) : s.arr[j].p = 0
@@ -90,7 +95,7 @@ Start(s) ==
     IN [heap |-> hp, ctr |-> n + Len(s.dyn), clock |-> 0, ps |-> PInit(Len(s.W)), active |-> 0, limit |-> s.lim,
         inited |-> FALSE, status |-> [j \in 1..n |-> "new"], eidx |-> zeros, lpop |-> zeros,
         log |-> <<>>, cnt |-> [accepted |-> 0, dropped |-> 0, completed |-> 0, rejected |-> 0],
-        over |-> FALSE, illegal |-> FALSE, misorder |-> FALSE, fin |-> ~RunnableH(hp)]
+        over |-> FALSE, illegal |-> FALSE, misorder |-> FALSE, fin |-> ~AliveH(s, hp)]
 
 Init == \E s \in ScenarioSet : sc = s /\ m = Start(s)
 
@@ -218,13 +223,13 @@ StepF(s, mm) ==
                [] e.k = "res" -> ResF(s, m0, e, hp)
                [] e.k = "shf" -> ShfF(s, m0, e, hp)
                [] e.k = "dyn" -> DynF(s, m0, e, hp)
-    IN [r EXCEPT !.fin = ~RunnableH(r.heap)]
+    IN [r EXCEPT !.fin = ~AliveH(s, r.heap)]
 
 \* the whole run in one evaluation (used by QueueTrace.tla)
 RECURSIVE RunAll(_, _)
-RunAll(s, mm) == IF RunnableH(mm.heap) THEN RunAll(s, StepF(s, mm)) ELSE mm
+RunAll(s, mm) == IF AliveH(s, mm.heap) THEN RunAll(s, StepF(s, mm)) ELSE mm
 
-Runnable == RunnableH(m.heap)
+Runnable == AliveH(sc, m.heap)
 Step == Runnable /\ m' = StepF(sc, m) /\ UNCHANGED sc
 Next == Step
 Spec == Init /\ [][Next]_vars
